@@ -941,6 +941,100 @@ def expected_contact_update(R, elliptic, flg_adhesion, Drow=None):
   return {"act": act, "rows": [row], "worldid": w, "efcid": adr, "vel": R.rd("efc_Jqvel_in", w, adr), "pre": []}
 
 
+# ------------------------------------------------------------------------------------------- mj_jacDot column
+
+mjJNT_FREE, mjJNT_BALL, mjJNT_SLIDE, mjJNT_HINGE = 0, 1, 2, 3
+
+
+def cross_motion(vel, v):
+  """mju_crossMotion: spatial cross product of two motion vectors (ang; lin)"""
+  return cross(vel[:3], v[:3]) + vadd(cross(vel[:3], v[3:]), cross(vel[3:], v[:3]))
+
+
+def ref_jacdot_col(isanc, jnt_type, dof, jnt_dofadr, cdof, cdof_dot, cvel_body, cvel_dofbody, com_root, point):
+  """column of mj_jacDot (engine_core_util.c) for one dof, written from the C semantics:
+    offset = point - subtree_com[root(body)];  pvel = cvel[body] transported to the point (lin - offset x ang)
+    cdof_dot = d->cdof_dot[dof], but for quaternion dofs (ball; rotational dofs of a free joint) it is recomputed as
+               crossMotion(cvel[dof_bodyid[dof]], cdof[dof])   -- the dof's OWN body, not the queried body
+    jacr = cdof_dot_ang;  jacp = cdof_dot_lin + cdof_dot_ang x offset + cdof_ang x pvel_lin;  zero for non-ancestor dofs"""
+  off = vsub(point, com_root)
+  pvel_lin = vsub(cvel_body[3:], cross(off, cvel_body[:3]))
+  is_quat = Or(eq(jnt_type, mjJNT_BALL), And(eq(jnt_type, mjJNT_FREE), ge(dof, add(jnt_dofadr, 3))))
+  cm = cross_motion(cvel_dofbody, cdof)
+  cd = [ite(is_quat, a, b) for a, b in zip(cm, cdof_dot)]
+  jp = vadd(vadd(cd[3:], cross(cd[:3], off)), cross(cdof[:3], pvel_lin))
+  anc = ne(isanc, 0)
+  return [ite(anc, x, 0.0) for x in jp], [ite(anc, x, 0.0) for x in cd[:3]], is_quat
+
+
+JACDOT_XML = """
+<mujoco>
+ <option gravity="0 0 -9.81"/>
+ <worldbody>
+  <body name="f" pos="0 0 1"><freejoint/><geom size="0.1" mass="1"/>
+   <body name="f1" pos="0.3 0.1 0"><joint name="fh" type="hinge" axis="0 1 0.3"/><geom size="0.05" mass="0.4"/>
+    <body name="f2" pos="0.2 0 0.1"><joint name="fs" type="slide" axis="1 0.2 0"/><geom size="0.05" mass="0.3"/>
+     <body name="f3" pos="0.1 0.1 0"><geom size="0.04" mass="0.2"/></body>
+    </body>
+   </body>
+  </body>
+  <body name="b" pos="1 0 1"><joint name="bb" type="ball"/><geom size="0.1" mass="1"/>
+   <body name="b1" pos="0.25 0 0.1"><joint name="bh" type="hinge" axis="0 0 1"/><geom size="0.05" mass="0.5"/>
+    <body name="b2" pos="0.2 0.1 0"><joint name="bb2" type="ball"/><geom size="0.05" mass="0.3"/>
+     <body name="b3" pos="0.1 0 0.2"><joint name="bs" type="slide" axis="0 1 0"/><geom size="0.04" mass="0.2"/></body>
+    </body>
+   </body>
+  </body>
+ </worldbody>
+</mujoco>
+"""
+
+
+def validate_jacdot():
+  """ref_jacdot_col with MuJoCo's own cdof / cdof_dot / cvel / subtree_com / tree vs mujoco.mj_jacDot.  The model has a free
+  joint and ball joints ABOVE the queried bodies with moving hinge / slide / ball joints in between (so that
+  cvel[dof_bodyid[dof]] != cvel[body])."""
+  import mujoco
+  import numpy as np
+
+  bad, n, nquat_strict = [], 0, 0
+  mjm = mujoco.MjModel.from_xml_string(JACDOT_XML)
+  rng = np.random.default_rng(11)
+  for trial in range(4):
+    mjd = mujoco.MjData(mjm)
+    q = rng.uniform(-0.8, 0.8, mjm.nq)
+    for j in range(mjm.njnt):
+      a = mjm.jnt_qposadr[j]
+      if mjm.jnt_type[j] == mjJNT_FREE:
+        q[a + 3 : a + 7] /= np.linalg.norm(q[a + 3 : a + 7])
+      if mjm.jnt_type[j] == mjJNT_BALL:
+        q[a : a + 4] /= np.linalg.norm(q[a : a + 4])
+    mjd.qpos[:] = q
+    mjd.qvel[:] = rng.uniform(-2, 2, mjm.nv)
+    mujoco.mj_forward(mjm, mjd)
+    for b in range(1, mjm.nbody):
+      point = mjd.xipos[b] + rng.uniform(-0.3, 0.3, 3)
+      jp, jr = np.zeros((3, mjm.nv)), np.zeros((3, mjm.nv))
+      mujoco.mj_jacDot(mjm, mjd, jp, jr, point, b)
+      for dof in range(mjm.nv):
+        anc, bb = 0, b
+        while bb > 0:
+          if bb == mjm.dof_bodyid[dof]:
+            anc = 1
+          bb = mjm.body_parentid[bb]
+        j = mjm.dof_jntid[dof]
+        f = lambda v: [float(x) for x in v]
+        rp, rr, isq = ref_jacdot_col(anc, int(mjm.jnt_type[j]), dof, int(mjm.jnt_dofadr[j]), f(mjd.cdof[dof]), f(mjd.cdof_dot[dof]), f(mjd.cvel[b]), f(mjd.cvel[mjm.dof_bodyid[dof]]), f(mjd.subtree_com[mjm.body_rootid[b]]), f(point))
+        n += 1
+        if anc and isq and mjm.dof_bodyid[dof] != b and not np.allclose(mjd.cvel[b], mjd.cvel[mjm.dof_bodyid[dof]], atol=1e-6):
+          nquat_strict += 1
+        if not (np.allclose(rp, jp[:, dof], atol=1e-8) and np.allclose(rr, jr[:, dof], atol=1e-8)):
+          bad.append(f"mj_jacDot body {b} dof {dof}: reference {rp} {rr} vs mujoco {jp[:, dof]} {jr[:, dof]}")
+  if nquat_strict < 20:
+    bad.append(f"validation scene exercises only {nquat_strict} quaternion-dof columns of strict descendants with a different cvel")
+  return bad, n, nquat_strict
+
+
 # =========================================================================================== validation against mujoco
 # The expected_* functions are evaluated on the INPUT arrays of the real kernel launches of mujoco_warp.make_constraint
 # (recorded with wp.launch intercepted) and the resulting rows are compared with the rows of the `mujoco` library for
